@@ -351,3 +351,91 @@ def _tcp_command(ex):
     cmd.request = SBytes.fresh(ex, "request")
     cmd.old_request = cmd.request
     return cmd
+
+
+# ---- response trimming and address mapping (C02 payload clause, C12) ------------------------------------------------------
+def _any_self(ex):
+    return ex.fresh_any("self")
+
+
+@contract("goodwe.protocol.ModbusRtuProtocolCommand.trim_response")
+class RtuTrim:
+    inline_at_calls = True      # one-line pure function: the proved body is its own summary at call sites
+    props = ("C02", "C12")
+    args = {"self": _any_self, "raw_response": "bytes"}
+    returns = "bytes"
+    raises_only = ()
+
+    def ensures_C02_C12_payload_is_between_header_and_crc(raw_response, result):
+        n = len(raw_response)
+        return len(result) == (n - 7 if n >= 7 else 0) and same_bytes(result, raw_response[5:n - 2 if n >= 7 else 5])
+
+
+@contract("goodwe.protocol.ModbusTcpProtocolCommand.trim_response")
+class TcpTrim:
+    inline_at_calls = True      # one-line pure function: the proved body is its own summary at call sites
+    props = ("C02", "C12")
+    args = {"self": _any_self, "raw_response": "bytes"}
+    returns = "bytes"
+    raises_only = ()
+
+    def ensures_C02_C12_payload_is_everything_after_the_header(raw_response, result):
+        n = len(raw_response)
+        return len(result) == (n - 9 if n >= 9 else 0) and same_bytes(result, raw_response[9:n])
+
+
+@contract("goodwe.protocol.Aa55ProtocolCommand.trim_response")
+class Aa55Trim:
+    inline_at_calls = True      # one-line pure function: the proved body is its own summary at call sites
+    props = ("C02", "C12")
+    args = {"self": _any_self, "raw_response": "bytes"}
+    returns = "bytes"
+    raises_only = ()
+
+    def ensures_C02_C12_payload_is_between_header_and_checksum(raw_response, result):
+        n = len(raw_response)
+        return len(result) == (n - 9 if n >= 9 else 0) and same_bytes(result, raw_response[7:n - 2 if n >= 9 else 7])
+
+
+def _cmd_with_first(cls):
+    def make(ex):
+        c = ex.new_object(cls.__new__(cls))
+        c.first_address = ex.fresh_int("first")
+        return c
+    return make
+
+
+@contract("goodwe.protocol.ModbusRtuProtocolCommand.get_offset")
+class RtuGetOffset:
+    inline_at_calls = True      # one-line pure function: the proved body is its own summary at call sites
+    props = ("C12",)
+    args = {"self": _cmd_with_first(ModbusRtuProtocolCommand), "address": "int"}
+    returns = "int"
+    raises_only = ()
+
+    def ensures_C12_two_bytes_per_register_from_block_start(self, address, result):
+        return result == (address - self.first_address) * 2
+
+
+@contract("goodwe.protocol.ModbusTcpProtocolCommand.get_offset")
+class TcpGetOffset:
+    inline_at_calls = True      # one-line pure function: the proved body is its own summary at call sites
+    props = ("C12",)
+    args = {"self": _cmd_with_first(ModbusTcpProtocolCommand), "address": "int"}
+    returns = "int"
+    raises_only = ()
+
+    def ensures_C12_two_bytes_per_register_from_block_start(self, address, result):
+        return result == (address - self.first_address) * 2
+
+
+@contract("goodwe.protocol.ProtocolCommand.get_offset")
+class PlainGetOffset:
+    inline_at_calls = True      # one-line pure function: the proved body is its own summary at call sites
+    props = ("C12",)
+    args = {"self": _any_self, "address": "int"}
+    returns = "int"
+    raises_only = ()
+
+    def ensures_C12_plain_byte_offset(address, result):
+        return result == address
